@@ -1,4 +1,4 @@
-import GbVerif.Model.Ppu
+import GbVerif.Model.Tile
 import GbVerif.Spec.Frame
 import GbVerif.Proofs.Enum
 /-!
